@@ -61,7 +61,7 @@ BODY_ASSUME = [
 
 # The proof is split over the type code seen at the loop head (5 classes; obligation cases.cover in every unit shows that they
 # cover all codes).  Measured: the unsplit unit (VERIF_CASE_ID 0, no VERIF_CASE) is green as well but needs 17-32 min (1.6 M
-# variables, one 13-minute UNSAT call); it is kept as role='finder' (not part of any check) for reference.
+# variables, one 13-minute UNSAT call); it is not registered (see the end of this block).
 CASES = [('fixed', 1, 'VERIF_CLASS_FIXED', 'y b n q i u h x t d'), ('string', 2, 'VERIF_CLASS_STRING', 's o g'),
          ('array', 3, 'VERIF_CLASS_ARRAY', 'a'), ('variant', 4, 'VERIF_CLASS_VARIANT', 'v'), ('struct', 5, 'VERIF_CLASS_STRUCT', 'r e (struct, dict entry)')]
 
@@ -98,7 +98,8 @@ def body_unit(suffix, case_id, case_macro, codes):
     return u
 
 
-UNITS = [body_unit(*c) for c in CASES] + [body_unit('', 0, None, 'all')]
+UNITS = [body_unit(*c) for c in CASES]
+# body_unit('', 0, None, 'all') gives the unsplit unit C01.p.body.all (green, 1652 obligations, 17-32 min); not registered: too slow to be useful
 
 # ---- the two validators called before the terminating NUL has been checked stay inside [start, start+len) ----
 RANGE_ASSUME = ['DBusString fields satisfy DBUS_GENERIC_STRING_PREAMBLE; the data object has EXACTLY len bytes (no terminator, nothing readable at str[len])']
